@@ -114,6 +114,13 @@ class CsrfReplayer:
     def restart(self) -> None:
         self.da.restart()
 
+    def bystander(self) -> None:
+        """requests of other endpoints that have to leave the CSRF state alone: a client refreshes its CSRF tokens and its access
+        token, somebody loads the public pages.  Not an edge of the model."""
+        x = self.sessions['c2']
+        for u in ('/api/refresh/csrf', '/api/refresh/access', '/streams?ajax=1', '/'):
+            x.request('GET', u)
+
     def age(self, minutes: int) -> None:
         """time passes (longer than the 20 minute life of a used-token record and of the csrf cookie's max-age) and
         the users log in again; the clients keep their csrf cookie, as an attacker replaying a token would.
@@ -158,6 +165,9 @@ def csrf_walks(edges: list[dict[str, Any]], da, rng: random.Random, nwalks: int,
          ('issue', 2, 'c2', 'keys', 0), ('present', 2, 'c2', 'keys', 0), ('age', 45, '', '', 0), ('present', 2, 'c2', 'keys', 0),
          ('present', 1, 'c1', 'streams', 0)],
     ]
+    # other endpoints are used between the first use of a token and its replay
+    scripts.append([('issue', 1, 'c1', 'keys', 0), ('present', 1, 'c1', 'keys', 0), ('bystander', 0, '', '', 0), ('present', 1, 'c1', 'keys', 0),
+                    ('issue', 2, 'c1', 'streams', 0), ('present', 2, 'c1', 'streams', 0), ('bystander', 0, '', '', 0), ('present', 2, 'c1', 'streams', 0)])
     # a used token replayed in every equivalent spelling (JSON body and query string)
     scripts.append([('issue', 1, 'c1', 'streams', 0)] + [('present', 1, 'c1', 'streams', 0)] * 4 +
                    [('issue', 2, 'c1', 'keys', 0)] + [('present', 2, 'c1', 'keys', 0)] * 4)
@@ -176,6 +186,13 @@ def csrf_walks(edges: list[dict[str, Any]], da, rng: random.Random, nwalks: int,
             outs = succ.get(cur, [])
             if not outs:
                 break
+            if script and script[0][0] == 'bystander' or (not script and accepted_once and rng.random() < 0.1):
+                if script:
+                    script.pop(0)
+                rp.bystander()
+                lines.append({'tid': tid, 'ev': 'bystander'})
+                kinds['bystander'] = kinds.get('bystander', 0) + 1
+                continue
             if script and script[0][0] == 'age' or (not script and accepted_once and rng.random() < 0.08):
                 minutes = script.pop(0)[1] if script else rng.choice([21, 60])
                 rp.age(minutes)
